@@ -880,30 +880,6 @@ def run_scenario(case):
     return obs
 
 
-# ----------------------------------------------------------------------------------------------- views on a case
-
-def handler_steps(case):
-    """Normalised list of the handler's (status, dataset) steps for generator services, after the count/dest steps."""
-    h = case["h"]
-    if h["kind"] != "gen":
-        return None
-    return h["steps"]
-
-
-def handler_disturbs_association(case):
-    """True when the scripted handler (or the scripted peer) aborts / releases the association itself."""
-    h = case["h"]
-    if h["kind"] in ("abort", "release"):
-        return True
-    if h["kind"] == "gen" and any(("abort" in s or "release" in s) for s in h["steps"]):
-        return True
-    return False
-
-
-def peer_disturbs(case):
-    return SERVICES[case["svc"]]["dimse"] == "C-GET" and any(o in ("abort", "silent") for o in case.get("subops") or [])
-
-
 # ----------------------------------------------------------------------------------------------- case generation
 
 MSG_IDS = [0, 1, 2, 255, 256, 0x7FFF, 0x8000, 65534, 65535]
